@@ -322,6 +322,7 @@ Definition is_madk (op : N) : bool := (op =? 23) || (op =? 36) || (op =? 24) || 
 
 Definition decode_vop2 (len w0 w1 : N) (i : inst) : res inst :=
   let r := i_row i in
+  let lsz := lit_size i in
   let operand_bits := extract_bits w0 0 8 in
   let sd := w1 in
   let src0_bits := extract_bits sd 0 7 in
@@ -340,11 +341,11 @@ Definition decode_vop2 (len w0 w1 : N) (i : inst) : res inst :=
                       <| i_dst_unused := sdwa_unused (extract_bits sd 11 12) |>
                       <| i_src0_sel := sdwa_sel (extract_bits sd 16 18) |>
                       <| i_src1_sel := sdwa_sel (extract_bits sd 24 26) |>,
-                    new_vreg src0_bits src0_bits 0, true, lit_size i)
+                    new_vreg src0_bits src0_bits 0, true, lsz)
       else
         s0 <- getop operand_bits ;;
         ROk (i, s0, false, i_size i)) ;;
-  '(s0, sz) <- literal len w1 s0 sz (lit_size i) ;;
+  '(s0, sz) <- literal len w1 s0 sz (lsz) ;;
   let bits := extract_bits w0 9 16 in
   let s1 := if sdwa && nz (extract_bits sd 31 31) then new_sreg bits bits 0 else new_vreg bits bits 0 in
   let s0 := if sdwa && nz (extract_bits sd 30 30) then new_sreg src0_bits src0_bits 0 else s0 in
@@ -352,7 +353,7 @@ Definition decode_vop2 (len w0 w1 : N) (i : inst) : res inst :=
   let i := i <| i_src0 := Some s0 |> <| i_src1 := Some s1 |> <| i_dst := Some (new_vreg dbits dbits 0) |> in
   if is_madk (r_opcode r) then
     if len <? 8 then RErr
-    else ROk (i <| i_imm := true |> <| i_size := lit_size i |>
+    else ROk (i <| i_imm := true |> <| i_size := lsz |>
                 <| i_src2 := Some (lit_operand 0 <| o_lit := w1 |>) |>)
   else ROk (i <| i_size := sz |>).
 
@@ -362,8 +363,7 @@ Definition flat_cnt (op : N) : option N :=
   else if (op =? 23) || (op =? 31) then Some 4
   else None.
 
-Definition decode_flat (cdna3 : bool) (len w0 w1 : N) (i : inst) : res inst :=
-  hi <- read_hi len w1 ;;
+Definition decode_flat_body (cdna3 : bool) (w0 hi : N) (i : inst) : res inst :=
   let raw := extract_bits w0 0 12 in
   let off := if nz (N.land raw 4096) then N.lor raw 4294959104 else raw in
   let bits := extract_bits hi 0 7 in
@@ -382,6 +382,10 @@ Definition decode_flat (cdna3 : bool) (len w0 w1 : N) (i : inst) : res inst :=
          <| i_addr := Some (new_vreg bits bits acnt) |>
          <| i_dst := Some (new_vreg dbits dbits c) |>
          <| i_data := Some (new_vreg tbits tbits c) |>).
+
+Definition decode_flat (cdna3 : bool) (len w0 w1 : N) (i : inst) : res inst :=
+  hi <- read_hi len w1 ;;
+  decode_flat_body cdna3 w0 hi i.
 
 Definition smem_cnt (op : N) : option N :=
   if op =? 0 then Some 1
@@ -427,9 +431,8 @@ Definition decode_sopc (len w0 w1 : N) (i : inst) : res inst :=
   '(s1, sz) <- literal len w1 s1 sz (lit_size i) ;;
   ROk (i <| i_size := sz |> <| i_src0 := Some s0 |> <| i_src1 := Some s1 |>).
 
-Definition decode_vop3b (len w0 w1 : N) (i : inst) : res inst :=
+Definition decode_vop3b_body (w0 hi : N) (i : inst) : res inst :=
   let r := i_row i in
-  hi <- read_hi len w1 ;;
   let i :=
     if 255 <? r_opcode r then
       let db := extract_bits w0 0 7 in
@@ -448,9 +451,12 @@ Definition decode_vop3b (len w0 w1 : N) (i : inst) : res inst :=
          <| i_src0 := Some s0 |> <| i_src1 := Some s1 |> <| i_src2 := s2 |>
          <| i_omod := extract_bits hi 27 28 |> <| i_neg := extract_bits hi 29 31 |>).
 
-Definition decode_vop3a (len w0 w1 : N) (i : inst) : res inst :=
-  let r := i_row i in
+Definition decode_vop3b (len w0 w1 : N) (i : inst) : res inst :=
   hi <- read_hi len w1 ;;
+  decode_vop3b_body w0 hi i.
+
+Definition decode_vop3a_body (w0 hi : N) (i : inst) : res inst :=
+  let r := i_row i in
   let bits := extract_bits w0 0 7 in
   d <- (if r_opcode r <=? 255 then getop bits else ROk (new_vreg bits bits 0)) ;;
   let d := cnt64 (r_dstw r) d in
@@ -478,6 +484,10 @@ Definition decode_vop3a (len w0 w1 : N) (i : inst) : res inst :=
     ROk (i <| i_opsel := extract_bits w0 11 12 |> <| i_opselhi := extract_bits hi 27 28 |>)
   else ROk i.
 
+Definition decode_vop3a (len w0 w1 : N) (i : inst) : res inst :=
+  hi <- read_hi len w1 ;;
+  decode_vop3a_body w0 hi i.
+
 Definition decode_sop1 (len w0 w1 : N) (i : inst) : res inst :=
   let r := i_row i in
   s0 <- getop (extract_bits w0 0 7) ;;
@@ -498,9 +508,8 @@ Definition ds_two_offsets (op : N) : bool :=
 Definition cnt_from_width (w : N) : N :=
   if w =? 64 then 2 else if w =? 96 then 3 else if w =? 128 then 4 else 1.
 
-Definition decode_ds (len w0 w1 : N) (i : inst) : res inst :=
+Definition decode_ds_body (w0 hi : N) (i : inst) : res inst :=
   let r := i_row i in
-  hi <- read_hi len w1 ;;
   let o0 := extract_bits w0 0 7 in
   let o1 := extract_bits w0 8 15 in
   let o0 := if ds_two_offsets (r_opcode r) then o0 else o0 + N.shiftl o1 8 in
@@ -512,6 +521,10 @@ Definition decode_ds (len w0 w1 : N) (i : inst) : res inst :=
          <| i_data := if 0 <? r_src0w r then vr 8 15 (r_src0w r) else None |>
          <| i_data1 := if 0 <? r_src1w r then vr 16 23 (r_src1w r) else None |>
          <| i_dst := if 0 <? r_dstw r then vr 24 31 (r_dstw r) else None |>).
+
+Definition decode_ds (len w0 w1 : N) (i : inst) : res inst :=
+  hi <- read_hi len w1 ;;
+  decode_ds_body w0 hi i.
 
 (* ------------------------------------------------------------------ Decode *)
 
